@@ -281,7 +281,22 @@ def run(prog, rep):
     rep.saw_function(px0)
     pxx = Expander(px0, inline=prog)
     pcalls = [c for h in private_closure(px0) for c in calls_in(h.node) if call_name(c) in ("ET.parse", "ET.fromstring", "ET.XML")]
-    rep.floor("PARSE-1", len(pcalls), 2, "lxml parse calls in _parse_xml")
+    rep.floor("PARSE-1", len(pcalls), 1, "lxml parse calls in _parse_xml")
+    # a StringIO source is read as a whole (getvalue()): handing the stream itself to lxml reads from its current position
+    from ..symtext import _guards_at
+    for hh in private_closure(px0):
+        hg = build_cfg(hh)
+        hx = Expander(hh, hg, inline=prog)
+        for n in hg.nodes:
+            for r in n.expr_roots():
+                for c in calls_in(r):
+                    if call_name(c) in ("ET.parse", "ET.fromstring", "ET.XML") and c.args and hx.text(c.args[0], n) == "%s.filename" % hh.params[0]:
+                        atoms = _guards_at(hx, n)
+                        not_stream = any(re.match(r"^isinstance\(%s\.filename, (io\.)?StringIO\)$" % re.escape(hh.params[0]), t) and not pol for t, pol in atoms)
+                        rep.check(not_stream, "PARSE-1", "%s: %s reads a path, not a text stream" % (hh.name, call_name(c)), "known not to be a StringIO",
+                                  "%s hands self.filename itself to %s on a path where it may be a StringIO: the stream is read from its current "
+                                  "position, not from the start" % (hh.short, call_name(c)), where(hh, c),
+                                  witness="a StringIO that was filled with write() (position at the end): 'Document is empty'")
     for c in pcalls:
         parser = c.args[1] if len(c.args) > 1 else kw(c, "parser", None)
         t = pxx.text(parser) if parser is not None else "<default parser>"
